@@ -1,7 +1,8 @@
 """C08 — placement is deterministic and independent of thread scheduling.
 
 Z1  no mutable variable of static / thread storage duration anywhere in the library
-Z2  no `mutable` member, no const_cast
+Z2  no const_cast; a `mutable` member only as a cache (plain assignment outside the parallel region, reset by every writer
+    of its inputs)
 Z3  no entropy / environment / wall-clock source reaches a result
 D1  every random engine member is seeded once, from the parameters' seed, in its owner's constructor
     and consumed only by the thread that owns it (never inside an asynchronous callee)
@@ -60,7 +61,7 @@ def is_const_decl(d):
 def run(ctx, rep, tier):
     prog, eff = ctx.prog, ctx.eff
     rep.rule("Z1", "no mutable static / thread-local storage in the library (expected count 0)", 0)
-    rep.rule("Z2", "no mutable member, no const_cast (expected count 0)", 0)
+    rep.rule("Z2", "no const_cast; mutable members only as properly invalidated caches outside the parallel region (expected count 0)", 0)
     rep.rule("Z3", "no entropy/environment source; clock values flow only into printed durations", 1)
     rep.rule("D1", "random engines: member, seeded once from the parameters' seed in the owner's constructor, consumed by the owner thread only", 1)
     rep.rule("D2", "unordered containers: order-insensitive use only (or copied and sorted)", 8)
@@ -70,7 +71,7 @@ def run(ctx, rep, tier):
     rep.rule("CTRL", "positive controls of the zero-instance rules (selftest/c08_controls.cpp)", 5)
 
     n_static = check_z1(prog, rep, "Z1")
-    n_mut = check_z2(prog, rep, "Z2")
+    n_mut = check_z2(prog, rep, "Z2", ctx)
     check_z3(ctx, prog, eff, rep, "Z3")
     check_d1(ctx, rep)
     check_d2(ctx, prog, eff, rep, "D2")
@@ -119,7 +120,7 @@ def run(ctx, rep, tier):
 
     cctx = CCtx()
     check_z1(ctl, sink, "Z1")
-    check_z2(ctl, sink, "Z2")
+    check_z2(ctl, sink, "Z2", cctx)
     check_z3(cctx, ctl, ceff, sink, "Z3")
     check_d2(cctx, ctl, ceff, sink, "D2")
     check_a1(cctx, ctl, ceff, sink, "A1")
@@ -194,15 +195,60 @@ def runtime_initialiser(d):
 
 # ---- Z2 --------------------------------------------------------------------
 
-def check_z2(prog, rep, rid):
+def check_z2(prog, rep, rid, ctx=None):
+    """A `mutable` member is shared state behind a const interface. It is compatible with the property only as a *cache*: written by
+    plain assignment from the other members, never from inside the parallel region, and reset by every writer of what it is
+    computed from (rule DS of common.py). Anything else makes a result depend on the history of calls or on thread timing."""
+    from .common import field_writes, check_derived_state
     n = 0
+    areach = None
     for q, r in prog.records.items():
         for name, fd in r["fields"].items():
             n += 1
-            if fd.get("mutable"):
-                rep.violation(rid, fd, None, "mutable member %s::%s" % (short(q), name),
-                              "const methods (the asynchronous solves, the pure queries) could write it",
-                              key="mutable|%s::%s" % (short(q), name))
+            if not fd.get("mutable"):
+                continue
+            fq = q + "::" + name
+            label = "mutable member %s::%s" % (short(q), name)
+            if ctx is None:
+                rep.violation(rid, fd, None, label, "const methods could write it", key="mutable|%s::%s" % (short(q), name))
+                continue
+            if areach is None:
+                try:
+                    areach = async_reachable(ctx)
+                except Exception:
+                    areach = set()
+            ws = [(f, x, u) for f, x, u in field_writes(ctx, fq) if f.kind == "CXXMethodDecl" and f.is_const]
+            why = []
+            for f, x, u in ws:
+                if f.key in areach:
+                    why.append("%s, which runs inside the asynchronous solves, writes it: a data race" % f.short)
+                p = u.node
+                if p.get("kind") == "UnaryOperator" and p.get("opcode") in ("++", "--") or \
+                        (p.get("kind") == "CompoundAssignOperator"):
+                    why.append("%s accumulates into it (%s): the value depends on how often the const method was called" % (f.short, p.get("opcode")))
+
+            class _Sink:
+                def __init__(self):
+                    self.v = []
+
+                def holds(self, *a, **k):
+                    pass
+
+                def unknown(self, rid_, node, func, what, reason):
+                    self.v.append(reason)
+
+                def violation(self, rid_, node, func, what, reason, key=None):
+                    self.v.append(reason)
+            sk = _Sink()
+            scope = {f.short for f, _x, _u in ws}
+            if scope:
+                check_derived_state(ctx, sk, rid, prog, scope=scope)
+            why += sk.v
+            if why:
+                rep.violation(rid, fd, None, label, "; ".join(dict.fromkeys(why))[:500], key="mutable|%s::%s" % (short(q), name))
+            else:
+                rep.holds(rid, fd, None, label, "a cache: assigned (not accumulated) by %d const method(s) outside the parallel region, and reset by "
+                          "every writer of the members it is computed from" % len(scope))
     seen = set()
     for f in prog.all_funcs(with_lambdas=False):
         for x in walk(f.body):
